@@ -200,6 +200,15 @@ class Ast:
         self._wo[k] = out
         return out
 
+    def walkable(self, crate):
+        """the crate's items for rules that read syntax trees: function bodies with the calls of helpers extracted since the
+        review written out (never used for flattening: a `return` inside a written-out body would read as the caller's)"""
+        if not hasattr(self, "_walkable"):
+            self._walkable = {}
+        if crate not in self._walkable:
+            self._walkable[crate] = [self.written_out(crate, it) if it.get("k") == "Fn" else it for it in self.crates[crate]]
+        return self._walkable[crate]
+
     def fns(self, crate, name=None, self_ty=None, mod=None, trait=None, items=None):
         out = []
         for it in (items if items is not None else self.crates[crate]):
